@@ -787,7 +787,7 @@ def run(c):
         batch.append(check_instance(c, spec, rng, 0, fixed_queries=qs, tag=tag))
         c.hit("corpus")
     run_batch(c, batch)
-    n = c.n(36, 420)
+    n = c.n(120, 1500)
     nq = 26
     batch = []
     for i in range(n):
